@@ -21,7 +21,7 @@ def run(R):
     cf = os.path.join(R.scratch, "c17-cases.ndjson")
     with open(cf, "w") as f:
         for c in cases:
-            f.write(json.dumps(dict(anns=c["anns"], have=sorted(c["have"]), body=c["body"], req=c["req"], o=c["o"], ty=c["ty"])) + "\n")
+            f.write(json.dumps(dict(anns=c["anns"], have=sorted(c["have"]), body=c["body"], req=c["req"], o=c["o"], ty=c["ty"], lvl=c["lvl"])) + "\n")
     tr = os.path.join(R.scratch, "c17.ndjson")
     R.drive("c17", "out=" + tr, "cases=" + cf, "responses=1", timeout=3000)
     R.validate("Trace_HttpMap", tr, reset_events=("HM", "HR", "HMMany"), timeout=3000)
